@@ -1,10 +1,11 @@
 (** C18 — comparison series depend only on the result set; bootstrap summaries
     are sane; date normalisation.  Statements only; proofs are in
     Proofs/{Series,SeriesPerm,SeriesWitness,SeriesSpec,SeriesSpelling,Bootstrap,BootstrapHull,
-    PercentileReal,BootstrapPercentile,Dates,DatesOrder}.v. *)
+    PercentileReal,BootstrapPercentile,Dates,DatesOrder,SeriesHist}.v. *)
 From Coq Require Import Permutation Reals.
 From Flocq Require Import Core BinarySingleNaN.
 From Perf Require Import Base.Bytes Base.B64 Base.Usort Model.Dates Model.Bootstrap Model.BootstrapSpec Model.Series Model.SeriesSpec
+     Model.SeriesHist Proofs.SeriesHist
      Proofs.Dates Proofs.DatesOrder Proofs.Bootstrap Proofs.Series Proofs.SeriesPerm Proofs.SeriesWitness
      Proofs.SeriesSpec Proofs.SeriesSpelling Proofs.B64Flocq Proofs.LegacyMean Proofs.PercentileReal Proofs.BootstrapHull Proofs.BootstrapPercentile.
 Local Open Scope Z_scope.
@@ -448,4 +449,60 @@ Proof.
       split; reflexivity.
   - intros r r' s d [<-|[<-|[]]] [<-|[<-|[]]] H1 H2 _ _ _ _ _ _ _; try discriminate H1; try discriminate H2;
       reflexivity.
+Qed.
+
+(** * one builder used incrementally (Model/SeriesHist.v)
+
+    AllComparisonSeries leaves the builder unchanged up to the order of the
+    values inside its cells (it sorts slices it shares with the builder);
+    [cells_reordered] over-approximates that side effect. *)
+
+(** Builder.Add respects it: adding the same result to two builders whose cells
+    hold the same values in some order gives two such builders *)
+Theorem C18_add_respects_cell_order : forall b b' r,
+  cells_reordered b b' -> cells_reordered (add b r) (add b' r).
+Proof. exact add_reordered. Qed.
+Print Assumptions C18_add_respects_cell_order.
+
+(** a build does not see the order of the values inside the builder's cells *)
+Theorem C18_build_ignores_cell_order : forall combine b b' e,
+  cells_reordered b b' ->
+  canon (all_comparison_series combine b e) = canon (all_comparison_series combine b' e).
+Proof. exact build_reordered. Qed.
+Print Assumptions C18_build_ignores_cell_order.
+
+(** every build of ANY history of Add / AllComparisonSeries on one builder
+    returns what a fresh builder over the results added so far returns *)
+Theorem C18_history_as_fresh : forall b ops outs, hrun b ops outs ->
+  forall acc, cells_reordered (adds acc) b -> map canon outs = map canon (fresh_outs acc ops).
+Proof. exact hist_as_fresh. Qed.
+Print Assumptions C18_history_as_fresh.
+
+(** Add rs1, build, Add rs2 (into cells already handed out), build again: the
+    second result is that of a fresh builder over rs1 ++ rs2 - hence, for a
+    well-formed set, the declarative series of rs1 ++ rs2 (C18_series_meets_spec) *)
+Theorem C18_second_build_as_fresh : forall rs1 rs2 c1 e1 c2 e2 o1 o2,
+  hrun b_empty (map HAdd rs1 ++ HBuild c1 e1 :: map HAdd rs2 ++ [HBuild c2 e2]) [o1; o2] ->
+  canon o1 = canon (all_comparison_series c1 (adds rs1) e1) /\
+  canon o2 = canon (all_comparison_series c2 (adds (rs1 ++ rs2)) e2).
+Proof. exact second_build_as_fresh. Qed.
+Print Assumptions C18_second_build_as_fresh.
+
+Theorem C18_second_build_meets_spec : forall rs1 rs2 c1 e1 c2 e2 o1 o2,
+  hrun b_empty (map HAdd rs1 ++ HBuild c1 e1 :: map HAdd rs2 ++ [HBuild c2 e2]) [o1; o2] ->
+  WFset (rs1 ++ rs2) -> valid_enum (adds (rs1 ++ rs2)) e2 ->
+  canon o2 = spec_series c2 (rs1 ++ rs2).
+Proof. exact second_build_meets_spec. Qed.
+Print Assumptions C18_second_build_meets_spec.
+
+(** non-vacuity: such a history exists (the in-place sort modelled as the identity reordering) *)
+Example C18_history_example :
+  let rs1 := [mk e1 s1 RDen "h" "d" 3; mk e1 s1 RNum "h" "d" 2] in
+  let rs2 := [mk e1 s1 RNum "h" "d" 1] in
+  exists o1 o2,
+    hrun b_empty (map HAdd rs1 ++ HBuild false (first_enum rs1) :: map HAdd rs2 ++ [HBuild true (first_enum (rs1 ++ rs2))]) [o1; o2].
+Proof.
+  cbn [map app]. eexists _, _.
+  apply hr_add, hr_add. eapply hr_build; [apply cr_refl|].
+  apply hr_add. eapply hr_build; [apply cr_refl|]. apply hr_nil.
 Qed.
